@@ -127,6 +127,11 @@ func (pr *priceReader) GetFeeQuoterTokenUpdates(
 		return nil, fmt.Errorf("failed to get fee quoter token updates: %w", err)
 	}
 
+	// updates is indexed by the position of the token below: the answer must have one entry per token.
+	if len(updates) != len(tokens) {
+		return nil, fmt.Errorf("fee quoter returned %d token updates for %d tokens", len(updates), len(tokens))
+	}
+
 	for i, token := range tokens {
 		// token not available on fee quoter
 		if updates[i].Timestamp == 0 || updates[i].Value == nil || updates[i].Value.Cmp(big.NewInt(0)) == 0 {
